@@ -92,6 +92,12 @@ T["C13"] = dict(
     technique="TLA+ state machine + TLC exhaustive behaviours with canary; spec->code replay of all behaviours with multi-instance projection",
     ref="6. C13")
 
+T["C18"] = dict(
+    text="spec/FldGrid.tla: integer n-th root, the mixed-radix counter of Op.increment as a state machine, reader filtering. TLC checks for all v <= 2000, n <= 4 that Root is the largest k with k^n <= v and that the counter visits exactly the k^n index vectors in lexicographic order (last index fastest, radix-1 inactive variables too) and then stops; canary: a root one too small on perfect cubes. Replay: Op.increment vs the visit sequences; real FldExporter on engines with 1-4 inputs for both scopes: header, row count, every input column vs the exact grid, output columns vs the engine's own per-row process(), switches, separators, decimals 1..9; reader contents with blank/comment/indented-comment and skipped lines.",
+    note="quick: v <= 130 plus every perfect power (and its predecessor) <= 2000; thorough: every v. Printed numbers compared within half a unit of the last decimal.",
+    technique="TLA+ state machine + arithmetic specification checked by TLC with canary; spec->code replay of exports",
+    ref="6. C18")
+
 PLANNED = {}
 
 def main():
